@@ -252,7 +252,9 @@ def triggers_of(program: dict, facts: dict[str, dict]) -> dict[str, list[str]]:
             padded = set(ancestors(program, st["right"]))
             if st.get("how") == "full":
                 padded |= set(ancestors(program, st["src"]))
-            if any(by_id[a]["op"] == "mutate" for a in padded if a in by_id):
+            # (a literal-valued column is protected by the subquery rule for constant columns; D52 is about
+            # computed columns)
+            if any(by_id[a]["op"] == "mutate" and any(_has_col(c[1]) for c in by_id[a]["cols"]) for a in padded if a in by_id):
                 hit("D52", sid)
         if op in ("mutate", "summarize") and (ops & {"sum", "cum_sum"}):
             found = []
